@@ -27,7 +27,10 @@ LEVEL_TEXT = ('Lean 4 theorems about the model of propagate_fft, for all fields,
               'composition (which shift is applied inside/outside and the norm= keyword are read from the source: Gen.fft2InnerIdx/fft2OuterIdx/fft2Norm, '
               'fft2_composition proves they are ifftshift / fftshift / ortho). propagateFft_scale_covariant: scaling every length by k>0 leaves the whole outcome '
               '(accepted field data and extents, or the same refusal) unchanged and multiplies the reported wavelength by k, and scratch_shape is unit independent (scratch_shape_scale_invariant_real) (for 0 < k; min(ka, kb) = k min(a, b) is proved, fft_scale_invariant_real / propagateFft_scale_covariant_real carry no other hypothesis). The oracle also checks that a '
-              'caller\'s scratch buffer is untouched outside the fft_shape corner after the call.')
+              'caller\'s scratch buffer is untouched outside the fft_shape corner after the call. '
+              'The call on a wavefront of any plane type (propagateFftCall = regenerated entry-guard table Gen.codePropagateFft, then propagateFft): a tilted wavefront is refused '
+              'whatever its plane type, also an untyped one (call_refuses_tilted_any_type), no outcome of the call carries a field of a tilted wavefront (call_result_implies_untilted), '
+              'an untilted untyped wavefront is refused with TypeError and on a pupil / image wavefront the call IS propagateFft with the plane type flipped (call_untilted).')
 LEVEL_NOTE = ('Partial: np.fft.fft2/fftshift/ifftshift and np.round/np.min/np.max enter through their documented contracts (not verified; which of them _fft2 composes and in which order IS regenerated; the real-number round-half-even and min are the instances the theorems are proved at); oversample is an integer in the model and theorems — float '
               'oversample is exercised by the oracle only (known finding KF-C09-float-oversample-explicit-shape); anisotropic dx·du whose per-axis wavelengths DIFFER is excluded by '
               'hypothesis (KF-C09-fft-anisotropic-wavelength; consistent per-axis grids are covered). Trusted: Lean kernel, py2lean subset semantics, generator coverage.')
@@ -40,12 +43,13 @@ RULE = ('cases: pupils 1..6 x 1..6 (even/odd/non-square, off-centre, segmented) 
         'tilted wavefronts; one case in five has anisotropic dx*du (non-square grids, wider and taller, mostly with dirty/re-used scratch: '
         'scratch = no scratch, exact scratch_shape and refusals are checked there too; only FFT vs DFT is the known-finding class). distinct = (pupil, grid, os, shape, scratch, class); '
         'non-trivial = odd grid or scratch or explicit shape or refusal'
+        ' Untyped stream (8 quick / 60 search / 120 thorough): the same cases on a wavefront of plane type none (plain Plane), every second tilted.'
         ' Extremes stream: every length scaled by 1e-9..1e3, 1/alpha within 1e-9..3e-4 of an integer, per-axis output pitches differing by 1e-5..3e-3 relative, grids up to 48 in search/thorough (oracle only above 16).')
 TRUSTED = ['np.fft.fft2(norm="ortho") = unitary DFT with origin at index 0; np.fft.fftshift/ifftshift = rotations by +-floor(n/2); '
            'np.round = round-half-even; lentil.field.insert as modelled by insertArr (C06)']
 UNPROVEN = ['float (non-integer) oversample: outside the model; explicit shapes then end in TypeError (known finding)',
             'anisotropic dx*du with different per-axis wavelengths (known finding): a single reported wavelength cannot describe both grids']
-ASSUMPTIONS = ['the wavefront has a plane type (pupil/image): an untyped wavefront ends in TypeError from _propagate_ptype before the shape guard (C08 models it; not an outcome of the C09 model, not generated)',
+ASSUMPTIONS = ['untyped wavefronts (plane type none: only a plain lentil.Plane met; tilted through Wavefront(tilt=) / a Tilt plane or not, with any shape / scratch) are generated: NotImplementedError when tilted, else TypeError (oracle); model = propagateFftCall over the regenerated guard table Gen.codePropagateFft',
                'scratch buffers are complex128 arrays (contiguous or strided views): a complex64 / real buffer would store the padded field at lower precision or drop its '
                'imaginary part, so "scratch transparent" is only claimed for buffers of the working dtype; such buffers are not generated',
                'pupil (wavefront.shape) no larger than the FFT grid; for the FFT = DFT clause dx*du is isotropic or the per-axis grids agree on the wavelength (S0*dx0*du0 = S1*dx1*du1, e.g. non-square grids 20x40; otherwise the open known finding); integer oversample >= 1 in model and '
